@@ -153,29 +153,29 @@ theorem commentBytes_length (fill : UInt8) (c : CommentS) (t : Bytes) (ht : c.te
   simp only [List.length_append, leBytes_length, zeros_length, List.length_cons, List.length_nil]
   omega
 
-theorem commentsBody_cons (fill : UInt8) (c : CommentS) (r : List CommentS) :
-    commentsBody fill (c :: r) = commentBytes fill c ++ commentsBody fill r := by
-  simp [commentsBody]
+theorem commentsBodyRaw_cons (fill : UInt8) (c : CommentS) (r : List CommentS) :
+    commentsBodyRaw fill (c :: r) = commentBytes fill c ++ commentsBodyRaw fill r := by
+  simp [commentsBodyRaw]
 
 def CommentOk (c : CommentS) : Prop :=
   c.user.length ≤ maxStr ∧ noNul c.user = true ∧ ∃ t, c.text = some t ∧ noNul t = true ∧ t.length + 1 < 2 ^ 32
 
 theorem decodeComments_at {b : Bytes} (fill : UInt8) (cs : List CommentS) :
-    ∀ (pos endp fuel : Nat), At b pos (commentsBody fill cs) → endp = pos + (commentsBody fill cs).length →
+    ∀ (pos endp fuel : Nat), At b pos (commentsBodyRaw fill cs) → endp = pos + (commentsBodyRaw fill cs).length →
       endp ≤ b.length → (∀ c ∈ cs, CommentOk c) → cs.length + 1 ≤ fuel →
       decodeComments b endp fuel pos = .ok (cs.map commentTree) := by
   induction cs with
   | nil =>
     intro pos endp fuel _ he _ _ hf
     obtain ⟨f, rfl⟩ : ∃ f, fuel = f + 1 := ⟨fuel - 1, by omega⟩
-    simp [commentsBody] at he
+    simp [commentsBodyRaw] at he
     simp [decodeComments, he]
   | cons c r ih =>
     intro pos endp fuel hat he hb hn hf
     obtain ⟨f, rfl⟩ : ∃ f, fuel = f + 1 := ⟨fuel - 1, by omega⟩
     obtain ⟨hul, hun, t, ht, htn, htl⟩ := hn c (by simp)
     have hul' : c.user.length ≤ 1024 := hul
-    rw [commentsBody_cons] at hat he
+    rw [commentsBodyRaw_cons] at hat he
     rw [at_append] at hat
     obtain ⟨h1, hrest⟩ := hat
     rw [List.length_append] at he
